@@ -20,5 +20,5 @@ GolombPrefixFree == (Kind = "expgolomb" /\ seq = <<>>) =>
 Emit == /\ (Kind = "huffman" /\ seq # <<>>) => PrintT(<<"CASE", ToJson([k |-> "huffman", weights |-> seq, codebook |-> H!Codebook(seq)])>>)
         /\ (Kind = "expgolomb" /\ seq # <<>>) => PrintT(<<"CASE", ToJson([k |-> "expgolomb", B |-> MaxLen, n |-> seq[1], codeword |-> G!Codeword(seq[1])])>>)
         /\ (Kind = "expgolomb" /\ seq = <<>>) => PrintT(<<"CASE", ToJson([k |-> "expgolomb_max",
-               cases |-> [B \in {8, 16, 32, 64} |-> [d \in 1..20 |-> [d |-> d - 1, codeword |-> G!NearMaxCodeword(B, d - 1)]]]])>>)
+               cases |-> [B \in {8, 16, 32, 64, 128} |-> [d \in 1..20 |-> [d |-> d - 1, codeword |-> G!NearMaxCodeword(B, d - 1)]]]])>>)
 =============================================================================
